@@ -1076,6 +1076,14 @@ def iter_next(ex, r):
             inner.fields[2] -= 1
             return some(s_.chars[inner.fields[2]])
         raise Unsupported('rev of ' + inner.name)
+    if n == 'Zip':
+        a = iter_next(ex, Ref(Cell(it.fields[0])))
+        if a.variant == 0:
+            return a
+        b = iter_next(ex, Ref(Cell(it.fields[1])))
+        if b.variant == 0:
+            return b
+        return some([a.fields[0], b.fields[0]])
     if n == 'ListIter':     # pre-computed list of items
         if it.fields[1] >= len(it.fields[0]):
             return NONE()
@@ -1120,6 +1128,13 @@ def iter_enumerate(ex, it): return Adt('Enumerate', 0, [it, 0])
 
 @nat('<* as Iterator>::map', '<Iter as Iterator>::map', '<SplitWhitespace as Iterator>::map', '<IntoIter as Iterator>::map', '<Chars as Iterator>::map')
 def iter_map(ex, it, f): return Adt('MapAdapter', 0, [it, f])
+
+
+@nat('<* as Iterator>::zip', '<Split as Iterator>::zip', '<Iter as Iterator>::zip', '<Chars as Iterator>::zip')
+def iter_zip(ex, a, b):
+    if isinstance(b, (VecV, Ref, MapV)):
+        b = into_iter(ex, b)
+    return Adt('Zip', 0, [a, b])
 
 
 @nat('<* as Iterator>::rev', '<Iter as Iterator>::rev', '<Chars as Iterator>::rev')
